@@ -188,7 +188,61 @@ fn gen_deleters_case(r: &mut Rng, k: usize) -> Case {
     }
 }
 
+/// Tiny `target_rowset_size`: one oversized row-set (never selected) that carries delete vectors,
+/// and several small row-sets which a compaction pass merges.  The pass must leave the oversized
+/// row-set AND its delete vectors alone.
+fn gen_subset_case(r: &mut Rng, k: usize) -> Case {
+    let big: Vec<i32> = (0..(BIG_ROWS as i32 * 3 + r.range(0, 40) as i32)).map(|i| 1000 + i).collect();
+    let mut setup = vec![Cmd::Create("t1".into()), Cmd::Insert("t1".into(), big)];
+    // rows of the oversized row-set are deleted (delete vectors on the row-set that is left alone)
+    setup.push(Cmd::Delete("t1".into(), "lt".into(), 1000 + r.range(2, 6) as i32));
+    let n_small = r.range(2, 3);
+    let mut next = 1;
+    for _ in 0..n_small {
+        let n = r.range(1, 2) as i32;
+        setup.push(Cmd::Insert("t1".into(), (0..n).map(|i| next + i).collect()));
+        next += n;
+    }
+    if r.chance(1, 2) {
+        setup.push(Cmd::Delete("t1".into(), "eq".into(), 1));
+    }
+    let mut actors = vec![];
+    let sess = |r: &mut Rng| -> Vec<Cmd> {
+        match r.below(4) {
+            0 => vec![Cmd::Delete("t1".into(), "eq".into(), 1100 + r.range(0, 50) as i32), Cmd::Count("t1".into())],
+            1 => vec![Cmd::Delete("t1".into(), "eq".into(), 2), Cmd::Count("t1".into())],
+            2 => vec![Cmd::Insert("t1".into(), vec![50, 51]), Cmd::Count("t1".into())],
+            _ => vec![Cmd::Count("t1".into()), Cmd::Delete("t1".into(), "ge".into(), 1290)],
+        }
+    };
+    if r.chance(1, 3) {
+        setup.push(Cmd::Compact);
+        actors.push(sess(r));
+        actors.push(vec![Cmd::Count("t1".into())]);
+    } else {
+        actors.push(vec![Cmd::Compact]);
+        actors.push(sess(r));
+        if r.chance(1, 2) {
+            actors.push(sess(r));
+        }
+    }
+    Case {
+        id: format!("s{k}"),
+        gate: gates(),
+        setup,
+        actors,
+        sched: vec![],
+        rng: r.next() | 1,
+        sticky: *r.pick(&[0, 50, 80]),
+        script: vec![],
+        target: 1024,
+    }
+}
+
 fn gen_case(r: &mut Rng, k: usize) -> Case {
+    if k % 7 == 6 {
+        return gen_subset_case(r, k);
+    }
     if k % 5 == 4 {
         return gen_deleters_case(r, k);
     }
